@@ -20,7 +20,9 @@ chk("C13", "fault_enumeration",
 chk("C14", "model_checking",
     "Explicit-state BFS over histories {user writes c, --replace with profile A/B, run killed at syscall k} with the real binary as "
     "transition function and a reference model of the backup protocol compared after every transition; quick: depth 6 with kill "
-    "points to depth 3; thorough: to closure of the reachable state set with kill points everywhere.",
+    "points to depth 3; thorough: to closure of the reachable state set with kill points everywhere. Plus a length sweep: for every "
+    "file length modulo 64 (the md5 block size; thorough: three blocks) the history user(c); run; run; same-length edit of the last "
+    "statement; run; run.",
     "state = bytes of file/backup/md5/temp + model variables; content alphabet closed under both formatters; md5 collision-freeness",
     "explicit-state BFS to closure with reference model, binary as transition function", "3/C14")
 
@@ -31,7 +33,9 @@ chk("C02", "model_checking",
     "nine languages) x base "
     "profiles (defaults, all-remove/force/add spacing, whitespace projection of 15 shipped styles) x every single deviation over "
     "every whitespace option the base run reads (sound read-set pruning); thorough adds sp x sp pairs and the 1321 corpus files. "
-    "Oracle: independent C/C++/ObjC/Java lexer with directive structure; uncrustify's own raw tokeniser for the other languages.",
+    "Oracle: independent C/C++/ObjC/Java/C#/D/Vala lexer with directive structure; uncrustify's own raw tokeniser for Pawn and ECMAScript "
+    "(and additionally for the skeletons). Universes include the language units of mc/universe/langunits.py (import/using runs, spacing "
+    "constructs of all languages, line comments ending in backslash + blanks).",
     "independent lexer mc/lex/cfamily.py; read-set hook soundness (Option<T>::operator() is the only read path); programs up to the stated grammar size only",
     "bounded-exhaustive program x configuration enumeration (k<=1 quick, k<=2 thorough) with independent re-lexing oracle", "3/C02")
 
@@ -78,12 +82,16 @@ chk("C04", "model_checking",
     "return/semicolon/integer-spelling/enum/include/infinite-loop/#if units x every mod_* option at every value, all pairs inside the "
     "brace family (quick) plus paren/int/sort pairs and mod x nl/sp pairs (thorough), and the shipped profiles; oracle: after deleting the "
     "token kinds the ENABLED options are documented to add or remove, the token sequences of input and output are equal (multisets "
-    "for sort/move options); brackets stay balanced and are added/removed in pairs; with all mod_ options at default nothing changes.",
-    "permitted-token table written from the option descriptions; C and C++ only",
+    "for sort/move options); brackets stay balanced and are added/removed in pairs; with all mod_ options at default nothing changes. "
+    "Language units for Java, C#, D, Vala, Objective-C and Pawn (import/using runs, using() statements, optional semicolons, property "
+    "attributes, body-less declarations) and six PRIMED bases in which a primary option is already on, so that the secondary options "
+    "(sort keys, weights, grouping, prefer-int-on-left ...) act: 55 of the 57 mod_ options change some output (listed in the evidence).",
+    "permitted-token table written from the option descriptions; Pawn judged by uncrustify's own tokeniser; a run that ends in a refusal is not judged here",
     "bounded-exhaustive program x mod-option enumeration (k<=2) with token-diff oracle", "3/C04")
 chk("C05", "model_checking",
     "History explorer of length 3 (format, format again, once more) on the real binary for every (program, original layout, "
-    "profile): generated statement packs, declaration/preprocessor units in C and C++, expression packs in up to 7 uniform layouts x "
+    "profile): generated statement packs, declaration/preprocessor units in C and C++, skeletons and language units of all nine languages, "
+    "expression packs in up to 7 uniform layouts x "
     "{defaults + 15 curated profiles}; thorough adds every C/C++ corpus file <= 40 kB x the same profiles as a fixed universe with "
     "individually listed exceptions. Oracle: pass 2 == pass 1, pass 3 == pass 2 byte for byte and --check passes on pass 1; weak claim "
     "(second pass exits 0) for every single deviation over the read set; tree clause: every ordered pair (and the whole set) of five "
@@ -147,18 +155,18 @@ chk("C08", "model_checking",
 
 chk("C10", "model_checking",
     "Exhaustive delivery-mode product on the real binary: for every (input, profile) - language skeletons of all nine languages, "
-    "declaration and preprocessor units; defaults, a profile with include/import/using sorting and alignment, four shipped styles - all 13 "
+    "declaration and preprocessor units; defaults, a profile with include/import/using sorting and alignment, four shipped styles - all 16 "
     "delivery modes (stdin+--assume, stdin+-l, -f, -f -o, -f X -o X, FILE, --prefix, --suffix, -F list, -F -, --replace, --replace "
-    "--no-backup, --no-backup) x {-l, language from the extension} x ALL subsets of the observer options {-p, -L A, -s, -q, --dump-steps, "
+    "--no-backup, --no-backup, and as the SECOND file of a -F list / of two positional files / of --no-backup behind a guarded CRLF header) x {-l, language from the extension} x ALL subsets of the observer options {-p, -L A, -s, -q, --dump-steps, "
     "--debug-csv-format} the mode accepts, plus one-at-a-time environment deviations (cwd elsewhere with absolute paths, five LC_ALL "
     "values, HOME and UNCRUSTIFY_CONFIG decoys, TZ, COLUMNS, ASLR off via setarch -R, repeated run). Oracle: formatted bytes identical to "
     "the reference run `-f FILE -l LANG -c CFG -q`; set of files created exactly as the mode documents; input untouched unless in place.",
-    "uninitialised reads that do not change the output under ASLR on/off are invisible; quick restricts observer subsets to sizes 0, 1, all for 9 of the 13 modes",
+    "uninitialised reads that do not change the output under ASLR on/off are invisible; quick restricts observer subsets to sizes 0, 1, all for 12 of the 16 modes",
     "exhaustive mode x observer-subset x environment-deviation enumeration with reference-run byte comparison", "3/C10")
 
 chk("C17", "model_checking",
-    "Stateless bounded-exhaustive exploration on the real binary: statement packs, declaration/preprocessor units, C/C++/ObjC/Java "
-    "skeletons x original layouts (trailing blanks, blank lines holding blanks/tabs, tab-after-space indentation, tabs between tokens, "
+    "Stateless bounded-exhaustive exploration on the real binary: statement packs, declaration/preprocessor units, C/C++/ObjC/Java/C#/D/Vala "
+    "skeletons and language units x original layouts (trailing blanks, blank lines holding blanks/tabs, tab-after-space indentation, tabs between tokens, "
     "several indentation widths) x the full product of the tab family indent_with_tabs {0,1,2} x indent_columns {1,2,3,4,8} x output_tab_size "
     "{1,2,3,4,8} x align_with_tabs x align_keep_tabs x pp_indent_with_tabs {-1,0,1,2} x indent_cmt_with_tabs (2400 configurations; quick: a "
     "216-configuration sub-product) with alignment on; the end-of-file family nl_end_of_file x nl_end_of_file_min {0..3} (x nl_max) x nine input "
@@ -180,7 +188,8 @@ chk("C18", "model_checking",
 chk("C19", "model_checking",
     "Stateless bounded-exhaustive exploration on the real binary with the guarded space-decision hook: every expression of G_expr(2) in "
     "statement/argument/#define (thorough: + initialiser/return/condition) context, C and C++ declaration units (templates, lambdas, functor "
-    "chains, conversion operators ...), preprocessor units, C/C++/ObjC/Java skeletons, statement packs, in original and wide-gap layout x "
+    "chains, conversion operators ...), preprocessor units, C/C++/ObjC/Java/C#/D/Vala skeletons, spacing units written for the ~70 sp_ options "
+    "no other program makes uncrustify consult, statement packs, in original and wide-gap layout x "
     "{defaults, all sp_ add, all sp_ remove, all sp_ force} x every sp_ option the run reads at each of its four values (exhaustive over "
     "options x values by read-set pruning); thorough adds sp x sp pairs. Oracle per pair decided by space_text() whose logged rule is a "
     "registered iarf option: the value returned is that option's configured value (ADD may be set only where the statement exempts it), and "
